@@ -142,17 +142,22 @@ def run(ctx):
                     ctx.disagree(f"rdo-commutator-raises:one_rdo_commutator_symm:{type(exc).__name__}", str(exc)[:300], desc)
     # ---- generalised doubles factorisation --------------------------------------------------------
     fams = ["real", "complex", "spinfree-itV", "acse-complex"]
-    for case in range(8 if quick else 40):
+    # regression corpus: degenerate generators with singular values 10-60 on which the Takagi route failed before
+    # fix a42d4fa (RandomState seeds of the probe that exposed it); they run first on every tier
+    corpus = [33, 39, 40, 47, 58]
+    ncase = 8 if quick else 40
+    for case in list(range(-len(corpus), 0)) + list(range(ncase)):
         nso = 4
         norb = 2
-        fam = fams[case % len(fams)]
+        fam = fams[case % len(fams)] if case >= 0 else "spinfree-itV-corpus"
         if fam == "real":
             gen = antisymm_generator(nr, nso)
         elif fam == "complex":
             gen = antisymm_generator(nr, nso, cplx=True)
-        elif fam == "spinfree-itV":
+        elif fam in ("spinfree-itV", "spinfree-itV-corpus"):
             # -i t V for a real spin-free two-body operator V (degenerate geminal spectrum)
-            v = nr.randint(-2, 3, (norb,) * 4).astype(float) / 4
+            vr = nr if case >= 0 else numpy.random.RandomState(corpus[case + len(corpus)])
+            v = vr.randint(-2, 3, (norb,) * 4).astype(float) / 4
             v = v + v.transpose(1, 0, 3, 2)
             v = v + v.transpose(3, 2, 1, 0)
             V = numpy.zeros((nso,) * 4)
@@ -161,7 +166,7 @@ def run(ctx):
             V = V - V.transpose(1, 0, 2, 3)
             V = V - V.transpose(0, 1, 3, 2)
             V = V + V.transpose(3, 2, 1, 0)
-            gen = -0.3j * V
+            gen = -1j * (rng.choice([0.3, 3.0, 3.0]) if case >= 0 else 3.0) * V
         else:
             # the ACSE residual of a complex wavefunction with a spin-free Hamiltonian (what vbc feeds in)
             h1 = C01.rand_tensor(rng, norb, 1, 1.0, False)
@@ -220,7 +225,7 @@ def run(ctx):
             ctx.case(("gdf", method, case))
             ctx.count(f"gdf:{method}:{fam}")
             if diff > 1e-8:
-                ctx.disagree(f"gdf:{method}:reassembly" + ("" if fam == "real" else f":{fam}"), f"one_body_op + sum V_l U_l differs from the generator on a random state by {diff:.2e}", desc)
+                ctx.disagree(f"gdf:{method}:reassembly" + ("" if fam == "real" else f":{fam.replace('-corpus', '')}"), f"one_body_op + sum V_l U_l differs from the generator on a random state by {diff:.2e}", desc)
             # normality of the returned one-body operators
             for M in normal_mats:
                 M = numpy.asarray(M)
